@@ -62,8 +62,7 @@ func VerifConnState(c *Conn) VerifState {
 		ErrCount:   c.errCount,
 		Bytes:      c.bytesReceived,
 		TLS:        isTLS,
-		LineLimit:  c.lineLimitReader.LineLimit,
-		CurLine:    c.lineLimitReader.curLineLength,
+		LineLimit:  c.server.MaxLineLength,
 	}
 }
 
